@@ -4,6 +4,7 @@ package main
 // C19 — legacy 0.3.x backups restore to the right state or fail.
 
 import (
+	"fmt"
 	"go/token"
 	"strings"
 
@@ -26,7 +27,7 @@ func init() {
 		Run: runC19,
 		Explanation: "Legacy restore skeleton: every WAL segment append is cut by the index/offset contiguity facts (Index == expectedIndex for a new WAL file with expectedIndex starting at the snapshot's index and stepping by one; Offset == running offset otherwise); " +
 			"snapshot choice and segment filter only admit elements not newer than T (and not older than the snapshot's index); format arbitration compares the eligible snapshots of both formats; the V3 branch is taken only without -txid and without follow; " +
-			"fail-stop walk over the cone of RestoreV3; output staging/publication rules by reference to C10/C11.",
+			"fail-stop walk over the cone of RestoreV3; output staging/publication rules by reference to C10/C11. TimeBounds/TimeBoundsV3 fold createdAt/updatedAt as true running minimum/maximum (each new value is taken only under v.IsZero() or x.Before/After(v) against the same variable).",
 		NotDecided:  "reconstruction correctness (SQLite applies the rebuilt WAL); quality of the arbitration heuristic beyond the compared operands",
 		Assumptions: []string{"SQLite applies a reconstructed WAL via wal_checkpoint(TRUNCATE)"},
 	})
@@ -486,6 +487,13 @@ func runC19(c *Ctx) {
 			c.check(vFieldLoad("RestoreOptions.Timestamp", nil)(call.Common().Args[3]), rule, fnName(fn)+": arbitration for opt.Timestamp", c.pos(call), "provenance matches", "arbitration ignores the requested time")
 		}
 	}
+	// the time bounds both formats are compared by are true extremes
+	for _, nm := range []string{"(*ls.Replica).TimeBoundsV3", "(*ls.Replica).TimeBounds"} {
+		if fn := c.fn("R4-format-arbitration", nm); fn != nil {
+			timeFoldRule(c, "R4-format-arbitration", fn, "createdAt", "Before")
+			timeFoldRule(c, "R4-format-arbitration", fn, "updatedAt", "After")
+		}
+	}
 	if fn := c.fn("R4-format-arbitration", "(*ls.Replica).shouldUseV3Restore"); fn != nil {
 		const rule = "R4-format-arbitration"
 		ts := vParam("timestamp")
@@ -519,4 +527,168 @@ func runC19(c *Ctx) {
 	c10OutputGuard(c, "(*ls.Replica).RestoreV3")
 	c10IntegrityCleanup(c, "(*ls.Replica).RestoreV3")
 	_ = strings.Contains
+}
+
+// timeFoldRule: `v` is folded as a running minimum (cmp = "Before") or maximum
+// (cmp = "After") of timestamps: every assignment of a new value X to the
+// variable happens only under v.IsZero() or X.<cmp>(v) — compared against the
+// *same* variable (a fold that compares against the other bound silently
+// returns the last element instead of the extreme).
+var foldSeen = map[string]bool{}
+
+func timeFoldRule(c *Ctx, rule string, fn *ssa.Function, varName, cmp string) {
+	// the variable is identified by the result position it is returned at (createdAt =
+	// result 0, updatedAt = result 1), not by its name: its phi web, the parameters
+	// feeding that web (in an extracted helper) and, in cell form, its alloc
+	idx := 0
+	if cmp == "After" {
+		idx = 1
+	}
+	web := map[ssa.Value]bool{}
+	cells := map[*ssa.Alloc]bool{}
+	var grow func(v ssa.Value)
+	grow = func(v ssa.Value) {
+		if v == nil || web[v] {
+			return
+		}
+		switch x := v.(type) {
+		case *ssa.Phi:
+			web[v] = true
+			for _, e := range x.Edges {
+				switch e.(type) {
+				case *ssa.Phi, *ssa.Parameter:
+					grow(e)
+				}
+			}
+		case *ssa.Parameter:
+			web[v] = true
+		case *ssa.UnOp:
+			if a, ok := cellOf(x.X).(*ssa.Alloc); ok && x.Op == token.MUL {
+				cells[a] = true
+			}
+		}
+	}
+	for _, r := range returns(fn) {
+		if idx < len(r.Results) {
+			grow(r.Results[idx])
+		}
+	}
+	// of the parameters feeding the web, the variable is the one tested with IsZero()
+	// (the others are the candidate values)
+	for v := range web {
+		p, ok := v.(*ssa.Parameter)
+		if !ok {
+			continue
+		}
+		zeroTested := false
+		for _, call := range callsTo(fn, nameIs("(time.Time).IsZero")) {
+			if a := call.Common().Args; len(a) > 0 && a[0] == ssa.Value(p) {
+				zeroTested = true
+			}
+		}
+		if !zeroTested {
+			delete(web, v)
+		}
+	}
+	isVar := func(v ssa.Value) bool {
+		if web[v] {
+			return true
+		}
+		if u, ok := v.(*ssa.UnOp); ok && u.Op == token.MUL {
+			if a, ok := cellOf(u.X).(*ssa.Alloc); ok && cells[a] {
+				return true
+			}
+		}
+		return false
+	}
+	n := 0
+	check := func(val ssa.Value, at ssa.Instruction, has func([]FP) bool) {
+		if isVar(val) {
+			return // the variable keeps its value
+		}
+		if k, isK := val.(*ssa.Const); isK && k.Value == nil {
+			return // zero value initialisation
+		}
+		// the fold step was extracted into a helper: the rule applies inside it
+		for _, o := range []ssa.Value{val} {
+			var call *ssa.Call
+			switch x := o.(type) {
+			case *ssa.Call:
+				call = x
+			case *ssa.Extract:
+				call, _ = x.Tuple.(*ssa.Call)
+			}
+			if call != nil {
+				if h := call.Call.StaticCallee(); isNewHelper(h) && !foldSeen[fmt.Sprintf("%p|%s", h, varName)] {
+					foldSeen[fmt.Sprintf("%p|%s", h, varName)] = true
+					timeFoldRule(c, rule, h, varName, cmp)
+				}
+				if h := call.Call.StaticCallee(); isNewHelper(h) {
+					n++
+					return
+				}
+			}
+		}
+		n++
+		alts := []FP{
+			truthFact(vCall("(time.Time).IsZero", isVar), true, varName+".IsZero()"),
+			truthFact(vCall("(time.Time)."+cmp, func(v ssa.Value) bool { return v == val || sameFieldLoad(v, val) }, isVar), true, "x."+cmp+"("+varName+")"),
+		}
+		ok := has(alts)
+		what := "maximum"
+		if cmp == "Before" {
+			what = "minimum"
+		}
+		c.check(ok, rule, fmt.Sprintf("%s: %s is a running %s: a new value is taken only under %s.IsZero() or x.%s(%s)", fnName(fn), varName, what, varName, cmp, varName), c.pos(at),
+			"assignment edge carries the comparison against the same variable", varName+" is overwritten under a comparison against something else: the result is not the "+what+" over all files (format arbitration and the restore target then use a wrong bound)")
+	}
+	for _, b := range fn.Blocks {
+		for _, in := range b.Instrs {
+			switch x := in.(type) {
+			case *ssa.Phi:
+				if !web[x] {
+					continue
+				}
+				for i, e := range x.Edges {
+					pred := b.Preds[i]
+					blk := b
+					check(e, lastInstr(pred), func(fps []FP) bool {
+						for _, fp := range fps {
+							if ifi, isIf := lastInstr(pred).(*ssa.If); isIf {
+								for si, sb := range pred.Succs {
+									if sb == blk && fp.holds(edgeFact(ifi, si)) {
+										return true
+									}
+								}
+							}
+						}
+						g, k := guardedBy(lastInstr(pred), fps...)
+						return k > 0 && g
+					})
+				}
+			case *ssa.Store:
+				if a, ok := cellOf(x.Addr).(*ssa.Alloc); ok && cells[a] && a.Parent() == fn {
+					st := x
+					check(x.Val, x, func(fps []FP) bool { g, k := guardedBy(st, fps...); return k > 0 && g })
+				}
+			}
+		}
+	}
+	c.floor(rule, n, 1, "assignments of a new value to "+varName+" in "+fnName(fn))
+}
+
+
+// sameFieldLoad: a and b are loads of the same field of the same base object.
+func sameFieldLoad(a, b ssa.Value) bool {
+	ua, ok1 := a.(*ssa.UnOp)
+	ub, ok2 := b.(*ssa.UnOp)
+	if !ok1 || !ok2 || ua.Op != token.MUL || ub.Op != token.MUL {
+		return false
+	}
+	fa, ok1 := ua.X.(*ssa.FieldAddr)
+	fb, ok2 := ub.X.(*ssa.FieldAddr)
+	if !ok1 || !ok2 || fa.Field != fb.Field {
+		return false
+	}
+	return fa.X == fb.X || sameValue(fa.X, fb.X)
 }
